@@ -74,6 +74,7 @@ def run(check, ctx):
     # the Keccak family as whole Python stacks over an exact model of the native sponge
     from . import sponge_compose
     sponge_compose.sponge_tables(check, ctx)
+    sponge_compose.md_stack_tables(check, ctx)
     # Poly1305-ChaCha20: the one-time key derivation (RFC 8439 2.6)
     from .c11_extra import poly1305_keypair_rows
     poly1305_keypair_rows(check, repo)
